@@ -401,6 +401,22 @@ def as_regex_template(ctx, rep, cl):
     return cls, found
 
 
+def _seq_parts(t):
+    """Element sources of a sequence expression in order: a + b, itertools.chain(a, b), list(x)/tuple(x)/x[:] copies."""
+    if (M.builtin_call(t, "list", 1) or M.builtin_call(t, "tuple", 1)):
+        return _seq_parts(t[2][0])
+    if t[0] == "sub" and t[2] == ("slice", None, None, None):
+        return _seq_parts(t[1])
+    if t[0] == "binop" and t[1] == "+":
+        return _seq_parts(t[2]) + _seq_parts(t[3])
+    if M.is_call(t) and M.callee_name(t) == "chain" and not t[3] and not any(a[0] == "star" for a in t[2]):
+        out = []
+        for a in t[2]:
+            out += _seq_parts(a)
+        return out
+    return [t]
+
+
 def c11(ctx, rep):
     p, A, G, folder = ctx.p, ctx.A, ctx.G, ctx.folder
     rep.explanation = (
@@ -471,11 +487,11 @@ def c11(ctx, rep):
                 # form C: zip(table, table[1:]) — consecutive pairs; the first lower bound is table[0] (== 0, checked by C11.block-table)
                 prevs = True
                 it_ok = True
-            if L[0] == "binop" and L[1] == "+" and L[2] == ("list", (("const", 0),)):
-                rest = L[3]
-                if M.builtin_call(rest, "list", 1):
-                    rest = rest[2][0]
-                prevs = M.drop_last(rest) is not None and M.drop_last(rest) in table_terms
+            parts = _seq_parts(L)
+            if len(parts) == 2 and parts[0] in (("list", (("const", 0),)), ("tuple", (("const", 0),))):
+                # [0] + table[:-1], [0] + list(table), chain((0,), table): zip stops at the shorter operand, so the table's last element is never a lower bound
+                rest = parts[1]
+                prevs = rest in table_terms or (M.drop_last(rest) is not None and M.drop_last(rest) in table_terms)
             rep.ob("C11.loop-over-table", f.name, it_ok, "loop pairs boundaries from %s; expected the boundary table in order" % show(B), w)
             if prevs:
                 lo = ("loopvar", li.uid, li.iter, (0,))
